@@ -40,3 +40,15 @@ package discovery
 //@   loop 4 invariant[source-ok] (mapping == nil || allocated_at_entry(mapping)) && !allocated_at_entry(normMapping) && forall(k, sharedDiscovery.Endpoint, in(k, mapping) ==> mapping[k].Count >= 0 && (mapping[k].StatusCodes == nil || allocated(mapping[k].StatusCodes)))
 //@   loop 4 invariant[counts-non-negative] normMapping != nil && forall(k, sharedDiscovery.Endpoint, in(k, normMapping) ==> normMapping[k].Count >= 0 && (normMapping[k].StatusCodes == nil || allocated(normMapping[k].StatusCodes)))
 //@   ensures[requests-conserved] result1 == nil && convergenceOccurred ==> cvDst == cvSrc
+
+// Persistence: the key under which an endpoint's statistics are written is made of exactly its method and its URL
+// (case and all), so two endpoints that the in-memory aggregation keeps apart are kept apart on disk and the totals
+// survive a write / read-back. pairKey(m, d, u): the string m + d + u (strings.Join of two elements; trusted).
+//@ ghost func pairKey(m string, d string, u string) string
+//@ extern strings.Join
+//@   modifies nothing
+//@   ensures len(elems) == 2 ==> result == pairKey(elems[0], sep, elems[1])
+//@ func dumpEndpoint
+//@   prop C15
+//@   modifies nothing
+//@   ensures[key-is-exactly-method-and-url] result == pairKey(endpoint.Method, sharedDiscovery.EndpointDelimiter, endpoint.URL)
